@@ -363,6 +363,35 @@ def r_purge_races_pageout(ctx):
     ctx.floor(rid + ".histories", n, 1)
 
 
+def r_pageout_failed_with_reader(ctx):
+    """C08.R3b: a page-out job that fails while a reader is still registered (a stale reader made the dataset evictable): the purge of the bad dataset
+    is deferred to the reader's close, so the dataset is still resident when the callback returns — its size must not be credited yet (it is credited
+    when the deferred purge finally unlinks the segment)."""
+    repo = ctx.repo
+    rid = f"{ctx.pid}.PAGEOUT"
+    d = dset("paging_out", size=4, name="d", readers={"r": OLD})
+    env = {"self.datasets": {"k": d}, "self.free_space": 3, "self.pageout_count": 1}
+    fi, paths = _closure_paths(repo, "page_out", env, {"ds": d, "key": "k", "self": Sym("self")}, False)
+    ctx.evals(len(paths))
+    n = 0
+    for p in paths:
+        if p.exit[0] != "return" or _lock_reentry(p) is not None:
+            continue
+        if any(e.kind == "raise" and e.data.get("implicit") and "SharedMemory" in vkey(e.data.get("value")) for e in p.effects):
+            continue
+        n += 1
+        free = p.heap["self.free_space"]
+        still = "k" in p.heap["self.datasets"]
+        want = 3 if still else 7
+        if free != want:
+            ctx.violation(rid, fi.qual, loc(fi), "failed page-out of a dataset that is still being read",
+                          f"page-out job failed, a reader is still registered: the dataset is {'kept (purge deferred to the reader)' if still else 'dropped'} and free_space goes "
+                          f"3 -> {vkey(free)} (expected {want}): crediting the size of a dataset that is still resident lets the store hand out more than its capacity")
+        else:
+            ctx.ok(rid, loc(fi), f"failed page-out with a registered reader: dataset {'kept' if still else 'dropped'}, free space {want}")
+    ctx.floor(rid + ".failed_with_reader_paths", n, 1)
+
+
 def r_pagein_callback(ctx):
     """page-in completion: success -> in_memory (space was reserved at issue time, untouched now); failure -> purged and the
     reservation returned exactly once."""
